@@ -178,23 +178,33 @@ def _run_lines(binary, cmd, lines, timeout=1800, shards=NPROC, ulimit_v=None):
         return []
     shards = max(1, min(shards, len(lines) // 8 or 1))
     chunks = [lines[i::shards] for i in range(shards)]
-    procs = []
-    for ch in chunks:
-        pre = "ulimit -s unlimited 2>/dev/null; " if ulimit_v is None else "ulimit -v %d; " % ulimit_v
-        p = subprocess.Popen(["bash", "-c", pre + "exec \"$0\" \"$1\"", binary, cmd], stdin=subprocess.PIPE, stdout=subprocess.PIPE,
-                             stderr=subprocess.PIPE, env=ENV)
-        procs.append(p)
     import threading
     outs = [None] * shards
+    # every process is memory-limited: a runaway allocation must end as a CRASH of that one case, not take the machine down
+    pre = "ulimit -s unlimited 2>/dev/null; ulimit -v %d; " % (ulimit_v or 12000000)
 
     def work(i):
-        o, e = procs[i].communicate(("\n".join(chunks[i]) + "\n").encode(), timeout=timeout)
-        res = o.decode("utf-8", "replace").split("\n")
-        if res and res[-1] == "":
-            res.pop()
-        if len(res) != len(chunks[i]):
-            # the process died (abort / stack overflow): mark the remaining cases
-            res = res + ["CRASH exit=%s %s" % (procs[i].returncode, e.decode("utf-8", "replace")[-300:].replace("\n", " "))] * (len(chunks[i]) - len(res))
+        pending = list(chunks[i])
+        res = []
+        while pending:
+            p = subprocess.Popen(["bash", "-c", pre + "exec \"$0\" \"$1\"", binary, cmd], stdin=subprocess.PIPE, stdout=subprocess.PIPE,
+                                 stderr=subprocess.PIPE, env=ENV)
+            try:
+                o, e = p.communicate(("\n".join(pending) + "\n").encode(), timeout=timeout)
+            except subprocess.TimeoutExpired:
+                p.kill()
+                o, e = p.communicate()
+                e = b"TIMEOUT " + e
+            got = o.decode("utf-8", "replace").split("\n")
+            if got and got[-1] == "":
+                got.pop()
+            got = got[:len(pending)]
+            res += got
+            if len(got) == len(pending):
+                break
+            # the process died (abort / stack overflow / timeout) on the next case: mark it and go on with the rest
+            res.append("CRASH exit=%s %s" % (p.returncode, e.decode("utf-8", "replace")[-300:].replace("\n", " ")))
+            pending = pending[len(got) + 1:]
         outs[i] = res
     ths = [threading.Thread(target=work, args=(i,)) for i in range(shards)]
     for t in ths:
